@@ -650,6 +650,10 @@ func ruleHttpReplyOnce(c *Ctx) {
 					return 1
 				}
 			}
+			// a helper of the package whose whole body is one reply
+			if w, _ := replyWrapper(pk, call); w {
+				return 1
+			}
 			return 0
 		})
 		bad := []string{}
@@ -801,6 +805,9 @@ func ruleErrorRendered(c *Ctx) {
 							return call
 						}
 					}
+					if w, _ := replyWrapper(pk, call); w {
+						return call
+					}
 				}
 				return nil
 			}
@@ -822,7 +829,10 @@ func ruleErrorRendered(c *Ctx) {
 				case f["failed:process"]:
 					nFail++
 					good := false
-					if len(call.Args) == 2 && codeOfErr(call.Args[0]) {
+					if w, ep := replyWrapper(pk, call); w {
+						// the error rendering lives in the helper; the kernel error is what it is handed
+						good = ep >= 0 && ep < len(call.Args) && isObj(info, call.Args[ep], errObj)
+					} else if len(call.Args) == 2 && codeOfErr(call.Args[0]) {
 						if cl, isLit := ast.Unparen(call.Args[1]).(*ast.CompositeLit); isLit && len(cl.Elts) == 1 {
 							if kv, isKV := cl.Elts[0].(*ast.KeyValueExpr); isKV && exprString(kv.Key) == `"error"` && isObj(info, kv.Value, errObj) {
 								good = true
@@ -1006,4 +1016,61 @@ func ruleSmallDefinitions(c *Ctx) {
 		return true
 	})
 	c.check(okEnc && okDec, "definitions/cursor-next", enc.Pos(), "a cursor token carries the next request and decoding restores it", "the cursor token no longer carries (or restores) the next request: following a cursor cannot continue the query")
+}
+
+// replyWrapper: call is to a function of the package whose whole body is one gin reply on a
+// *gin.Context parameter. errParam >= 0 when that reply is the error rendering
+// c.JSON(code(P.Code), gin.H{"error": P}) of parameter number errParam.
+func replyWrapper(pk *packages.Package, call *ast.CallExpr) (isWrapper bool, errParam int) {
+	info := pk.TypesInfo
+	errParam = -1
+	fn, ok := calleeOf(info, call).(*types.Func)
+	if !ok || fn.Pkg() != pk.Types {
+		return false, -1
+	}
+	fd := funcDeclOf(pk, fn)
+	if fd == nil || fd.Body == nil || len(fd.Body.List) != 1 {
+		return false, -1
+	}
+	es, ok := fd.Body.List[0].(*ast.ExprStmt)
+	if !ok {
+		return false, -1
+	}
+	inner, ok := es.X.(*ast.CallExpr)
+	if !ok {
+		return false, -1
+	}
+	ifn, ok := calleeOf(info, inner).(*types.Func)
+	if !ok || !isFuncOf(ifn, "github.com/gin-gonic/gin", "Context") {
+		return false, -1
+	}
+	switch ifn.Name() {
+	case "JSON", "String", "Status", "AbortWithStatus", "AbortWithStatusJSON", "Data", "IndentedJSON", "PureJSON":
+	default:
+		return false, -1
+	}
+	sig := fn.Type().(*types.Signature)
+	if ifn.Name() == "JSON" && len(inner.Args) == 2 {
+		for i := 0; i < sig.Params().Len(); i++ {
+			par := sig.Params().At(i)
+			codeOK := false
+			if cc, ok := ast.Unparen(inner.Args[0]).(*ast.CallExpr); ok && len(cc.Args) == 1 {
+				if se, ok := ast.Unparen(cc.Fun).(*ast.SelectorExpr); ok && se.Sel.Name == "code" {
+					if as, ok := ast.Unparen(cc.Args[0]).(*ast.SelectorExpr); ok && as.Sel.Name == "Code" && isObj(info, as.X, par) {
+						codeOK = true
+					}
+				}
+			}
+			bodyOK := false
+			if cl, ok := ast.Unparen(inner.Args[1]).(*ast.CompositeLit); ok && len(cl.Elts) == 1 {
+				if kv, ok := cl.Elts[0].(*ast.KeyValueExpr); ok && exprString(kv.Key) == `"error"` && isObj(info, kv.Value, par) {
+					bodyOK = true
+				}
+			}
+			if codeOK && bodyOK {
+				errParam = i
+			}
+		}
+	}
+	return true, errParam
 }
